@@ -5,6 +5,7 @@ mod fixed;
 mod gdrive;
 mod generic;
 mod interp;
+mod la;
 mod gen;
 mod guard;
 mod qdrive;
